@@ -21,7 +21,10 @@ func init() {
 			"runners with equal rank (same class and Order, or both unordered) may run in any relative order; when one of them fails the others of equal rank may or may not have run",
 			"more than three runners are not covered",
 		},
-		Parts: []Part{{Name: "runners", Run: c13Run, QuickS: 90, ThoroughS: 900}},
+		Parts: []Part{
+			{Name: "runners", Run: c13Run, QuickS: 90, ThoroughS: 900},
+			{Name: "many-runners", Run: c13Many, Workers: 4, QuickS: 30, ThoroughS: 60},
+		},
 	})
 }
 
